@@ -58,7 +58,7 @@ type anEvent struct {
 }
 
 type anOp struct {
-	Op    string   `json:"op"` // block emit foreign reorg height tok req failnext
+	Op    string   `json:"op"` // block emit foreign reorg height tok req failnext hold
 	B     int      `json:"b"`
 	H     int      `json:"h"`
 	Ts    int      `json:"ts"` // seconds relative to the start of the scenario
@@ -67,6 +67,7 @@ type anOp struct {
 	Shape string   `json:"shape"`
 	Tx    int      `json:"tx"`
 	Route string   `json:"route"`
+	Ms    int      `json:"ms"` // hold: delay the next request on Route by this many milliseconds before it is served
 }
 
 type anTrigger struct {
@@ -133,6 +134,7 @@ type anNode struct {
 	byID    map[int]*anEvent
 	tok     map[string]string
 	failNx  map[string]int
+	holdNx  map[string][]int // schedule control: pending delays (ms) for the next requests of a route
 	served  map[string]int
 	next    int       // next script step
 	armedAt time.Time // when the next step became the current one
@@ -340,6 +342,11 @@ func (nd *anNode) apply(op anOp) {
 	case "failnext":
 		nd.failNx[op.Route]++
 		a["route"] = op.Route
+	case "hold":
+		// schedule control: the next request on this route is served only after `ms` (the watcher's other goroutines
+		// run on meanwhile); the request is logged when it is served, so the trace order stays the order of service
+		nd.holdNx[op.Route] = append(nd.holdNx[op.Route], op.Ms)
+		a["route"], a["ms"] = op.Route, op.Ms
 	case "req":
 		h := anHash("tx|", nd.sc.ID, "|", op.Tx)
 		a["tx"] = op.Tx
@@ -467,10 +474,44 @@ func (nd *anNode) multicall(tokName string) (int, interface{}, string) {
 	return 200, map[string]interface{}{"results": res}, shape
 }
 
+func anRouteOf(p string) string {
+	switch {
+	case p == "/infos/version":
+		return "version"
+	case p == "/infos/self-clique":
+		return "clique"
+	case strings.HasPrefix(p, "/events/contract/") && strings.HasSuffix(p, "/current-count"):
+		return "count"
+	case strings.HasPrefix(p, "/events/contract/"):
+		return "page"
+	case strings.HasPrefix(p, "/events/tx-id/"):
+		return "events-tx"
+	case strings.HasPrefix(p, "/blockflow/headers/"):
+		return "headers"
+	case p == "/blockflow/is-block-in-main-chain":
+		return "is-main"
+	case p == "/blockflow/chain-info":
+		return "chain-info"
+	case p == "/transactions/status":
+		return "status"
+	case p == "/contracts/multicall-contract":
+		return "multicall"
+	}
+	return "unknown"
+}
+
 func (nd *anNode) ServeHTTP(w http.ResponseWriter, r *http.Request) {
 	body, _ := io.ReadAll(r.Body)
 	nd.mu.Lock()
 	defer nd.mu.Unlock()
+	if hr := anRouteOf(r.URL.Path); !nd.closed && len(nd.holdNx[hr]) > 0 {
+		ms := nd.holdNx[hr][0]
+		nd.holdNx[hr] = nd.holdNx[hr][1:]
+		nd.lastAct = time.Now().Add(time.Duration(ms) * time.Millisecond)
+		nd.mu.Unlock()
+		time.Sleep(time.Duration(ms) * time.Millisecond)
+		nd.mu.Lock()
+	}
 	if nd.closed {
 		nd.writeJSON(w, 503, map[string]interface{}{"detail": "scenario over"})
 		return
@@ -673,7 +714,7 @@ func anRunScenario(t *testing.T, sc *anScenario, tr *anTrace) {
 		sc.IdleMs = 60
 	}
 	nd := &anNode{sc: sc, tr: tr, t0: time.Now().Truncate(time.Second), blocks: map[int]*anBlock{}, byID: map[int]*anEvent{},
-		tok: map[string]string{}, failNx: map[string]int{}, served: map[string]int{}, seen: map[int]int{},
+		tok: map[string]string{}, failNx: map[string]int{}, holdNx: map[string][]int{}, served: map[string]int{}, seen: map[int]int{},
 		msgC: make(chan *common.MessagePublication, 4096), obsvC: make(chan *gossipv1.ObservationRequest, 64)}
 	g := anHash("governance")
 	tb := anHash("tokenbridge")
